@@ -262,7 +262,8 @@ def explore(body, prefix=(), bound=None, stats=None, expand_only=False, audit_ev
             s2 = Stats()
             c2 = _run(body, p, s2, bound)     # same prefix: the same nodes count as fresh
             stats.reruns += 1
-            if c2.choices != ctx.choices or json.dumps(c2.failures, sort_keys=True, default=repr) != json.dumps(ctx.failures, sort_keys=True, default=repr):
+            # same verdicts = same (clause, key) multiset; free-text details may name scratch paths
+            if c2.choices != ctx.choices or sorted(_viol_key(f) for f in c2.failures) != sorted(_viol_key(f) for f in ctx.failures):
                 raise HarnessError("violation did not reproduce identically for choices %r" % (ctx.choices,))
             for f in ctx.failures:
                 f = dict(f)
